@@ -210,10 +210,24 @@ func (in *Interp) instrs(fr *frame, b *ssa.BasicBlock, i int, st *State, k func(
 				fr.env[ins] = NewSym(ins.Type(), fmt.Sprintf("typeassert@%d", ins.Pos()), x)
 			}
 		case *ssa.Lookup:
-			fr.env[ins] = NewSym(ins.Type(), "lookup", in.operand(fr, ins.X, st), in.operand(fr, ins.Index, st))
+			mv, kv := in.operand(fr, ins.X, st), in.operand(fr, ins.Index, st)
+			key := "map:" + vstr(mv) + "[" + vstr(kv) + "]"
+			if ins.CommaOk {
+				var val Value = NewSym(nil, "lookup", mv, kv)
+				if sv, ok := st.SymMem[key]; ok {
+					val = sv
+				}
+				fr.env[ins] = &Tuple{E: []Value{val, NewSym(types.Typ[types.Bool], "haskey", mv, kv)}}
+			} else if sv, ok := st.SymMem[key]; ok {
+				fr.env[ins] = sv
+			} else {
+				fr.env[ins] = NewSym(ins.Type(), "lookup", mv, kv)
+			}
 		case *ssa.MakeMap:
 			fr.env[ins] = NewSym(ins.Type(), fmt.Sprintf("makemap@%d", ins.Pos()))
 		case *ssa.MapUpdate:
+			// distinct key terms are assumed not to alias (stated by the rules that rely on it)
+			st.SymMem["map:"+vstr(in.operand(fr, ins.Map, st))+"["+vstr(in.operand(fr, ins.Key, st))+"]"] = in.operand(fr, ins.Value, st)
 			st.Effects = append(st.Effects, Effect{Kind: "mapupdate", Args: []Value{in.operand(fr, ins.Map, st), in.operand(fr, ins.Key, st), in.operand(fr, ins.Value, st)}, Pos: ins.Pos()})
 		case *ssa.Range, *ssa.Next, *ssa.Select, *ssa.Send, *ssa.Go, *ssa.MakeChan:
 			st.Note("unsupported instruction %T in %s", ins, fr.fn)
@@ -419,7 +433,14 @@ func (in *Interp) load(st *State, addr Value, t types.Type) Value {
 				}
 			}
 		}
-		return derefTerm(p, t)
+		v := derefTerm(p, t)
+		// value refinement: a location the path's zone pins to one integer reads as that constant
+		if t != nil && isInteger(t) {
+			if c, ok := Pinned(st, v); ok {
+				return Const{V: constant.MakeInt64(c), T: t}
+			}
+		}
+		return v
 	}
 	return NewSym(t, "load", addr)
 }
